@@ -81,6 +81,7 @@ type wWorld struct {
 	Probes  []string `json:"probes"`  // C02: names to look up
 	Walks   []walkJ  `json:"walks"`   // C07: start nodes and visitor policies
 	Queries []queryJ `json:"queries"` // C05: dependency accessor calls, in order
+	Ops     []opJ    `json:"ops"`     // C06: accessor calls / walks, in order
 }
 
 type ref struct {
@@ -350,6 +351,7 @@ func fqnJoin(scope, name string) string { return scope + "." + name }
 func genWorld(r *rand.Rand, o genOpts) wWorld {
 	wg := &worldGen{r: r, extNum: 1000, pooled: r.Intn(2) == 0, long: r.Intn(6) == 0}
 	nf := 1 + r.Intn(o.maxFiles)
+	shape := r.Intn(4)
 	pkgs := []string{"", "a", "a.b", "c"}
 	var w wWorld
 	visible := make([]map[int]bool, nf) // files whose types file i may reference (besides itself)
@@ -370,7 +372,19 @@ func genWorld(r *rand.Rand, o genOpts) wWorld {
 		visible[fi] = map[int]bool{}
 		reexports[fi] = map[int]bool{}
 		for d := 0; d < fi; d++ {
-			if r.Intn(3) != 0 {
+			// import shapes: sparse random DAG, chains, hubs, dense
+			take := false
+			switch shape {
+			case 0:
+				take = r.Intn(3) == 0
+			case 1: // chain with a few extra edges
+				take = d == fi-1 || r.Intn(6) == 0
+			case 2: // hubs: the first files are imported by many; later files chain
+				take = (d < 2 && r.Intn(4) > 0) || d == fi-1 && r.Intn(2) == 0
+			default:
+				take = r.Intn(3) > 0
+			}
+			if !take {
 				continue
 			}
 			f.Deps = append(f.Deps, w.Files[d].Name)
@@ -396,6 +410,9 @@ func genWorld(r *rand.Rand, o genOpts) wWorld {
 			f.Enums = append(f.Enums, wg.genEnum(scope, fi, proto3))
 		}
 		nm := r.Intn(5)
+		if o.maxFiles > 6 {
+			nm = r.Intn(3) // many files: keep each small
+		}
 		for i := 0; i < nm; i++ {
 			f.Msgs = append(f.Msgs, wg.declMsgTree(scope, fi, proto3, o.maxDepth))
 		}
